@@ -21,11 +21,15 @@ CODES = {
     4: ("model", "Gallina model and money process disagree with each other (outside the theorems' hypotheses?)"),
     core.RAISED: ("oracle", "sequential_phragmen raised / the interpreter died"),
 }
-RULE = ("approval elections, 1..6 voters (ballot copies), 0..7 projects, Profile and MultiProfile (also profiles with "
+RULE = ("three streams.  (A, 13/16) approval elections, 1..6 voters (ballot copies), 0..7 projects, Profile and MultiProfile (also profiles with "
         "repeated ballots), cost pools with zeros / equal costs / halves and thirds / one project dearer than the budget, "
         "budgets on subset sums and boundaries, party-list elections built so that several projects fall due at the same "
         "moment, initial_loads None / equal / unequal, feasible initial allocations, lexico / app_score / min_cost / "
-        "max_cost tie-breaking and random strict orders, resolute and irresolute.  non-trivial = distinct election in "
+        "max_cost tie-breaking and random strict orders, resolute and irresolute.  (B, 1/16) NEAR-TIES: multiprofiles with "
+        "classes of 10^4..10^5 voters and integer/fractional costs up to 10^11 whose purchase moments differ by a relative "
+        "1e-10..1e-16 (the strictly earlier project must win whatever the names, keys, insertion order).  (C, 2/16) "
+        "irresolute elections on a path/cycle of voters with equal costs in which tied projects share supporters and the "
+        "order of purchase changes the loads and the later purchases (steered by rejection sampling).  non-trivial = distinct election in "
         "which at least one project is bought by the process and (a tie between >=2 due projects occurred, or the "
         "process stopped on an overshoot, or the unsupported tail was reached)")
 ASSUMPTIONS = [
@@ -90,7 +94,14 @@ def _budget_for(rng, costs):
 
 def gen(rng, i, tier):
     """rejection sampling on the python money trace: most cases buy something; a quarter is steered
-    towards a stop at which only SOME of the due projects overshoot (the stop rule under ties)"""
+    towards a stop at which only SOME of the due projects overshoot (the stop rule under ties);
+    plus two dedicated streams: NEAR-TIES (city-sized multiprofiles whose purchase moments differ by a
+    relative 1e-10..1e-16) and irresolute ties between projects with OVERLAPPING supporters in which the
+    order of purchase changes the loads and thereby later purchases."""
+    if i % 16 == 5:
+        return _near_tie(rng)
+    if i % 16 in (9, 13):
+        return _overlap(rng)
     want = rng.random()
     best = None
     for attempt in range(8):
@@ -110,6 +121,94 @@ def gen(rng, i, tier):
                 return c
         else:
             return c
+    return best
+
+
+def _near_tie(rng):
+    """two projects with disjoint supporter classes of n1 < n2 voters and costs t*n_i + k: purchase moments
+    t + k/n1 > t + k/n2, relative difference k(n2-n1)/(n1 n2 t) in 1e-10..1e-16.  The slightly later one is the
+    cheaper one; which of the two has the smaller name / key is random; the budget usually fits only one."""
+    n1 = rng.randrange(10 ** 4, 10 ** 5)
+    n2 = n1 + rng.choice([1, 1, 1, 2, 3])
+    t = rng.choice([5, 17, 1000, 10 ** 5, 10 ** 6, Fraction(7, 3), Fraction(10 ** 6, 7)])
+    k = rng.choice([1, 1, 1, 2])
+    scale = rng.choice([1, 1, 1, Fraction(1, 3), 7])
+    c1, c2 = (t * n1 + k) * scale, (t * n2 + k) * scale
+    m = rng.choice([2, 2, 3, 3, 4])
+    pos = rng.sample(range(m), 2)          # ranks of the worse (n1) and the better (n2) project
+    costs = [None] * m
+    costs[pos[0]], costs[pos[1]] = c1, c2
+    ballots, mults = [[pos[0]], [pos[1]]], [n1, n2]
+    extra = [j for j in range(m) if j not in pos]
+    for j in extra:
+        kind = rng.randrange(3)
+        if kind == 0:                      # an exact twin of the better project (same supporters, same cost)
+            costs[j] = c2
+            ballots[1] = ballots[1] + [j]
+        elif kind == 1:                    # unsupported
+            costs[j] = rng.choice([c1, 1, c2 * 2])
+        else:                              # a small third party, due much later
+            costs[j] = c1
+            ballots.append([j])
+            mults.append(rng.randrange(1, 50))
+    bm = rng.randrange(4)
+    b = [max(c1, c2), max(c1, c2), c1 + c2, max(c1, c2) + rng.choice([0, 1, c1 / 2])][bm]
+    lm = rng.random()
+    loads = None if lm < 0.7 else [pb.qs(rng.choice([0, 1, 3]))] * len(ballots)
+    key = list(range(m))
+    rng.shuffle(key)
+    order = list(range(m))
+    rng.shuffle(order)
+    perm = list(range(len(ballots)))
+    rng.shuffle(perm)
+    return {"costs": [pb.qs(c) for c in costs], "budget": pb.qs(b), "ballots": [ballots[x] for x in perm],
+            "mults": [mults[x] for x in perm], "multi": True, "loads": loads, "init": [], "tb": rng.choice(TBS),
+            "key": key, "resolute": rng.random() < 0.6, "order": order}
+
+
+def _overlap(rng):
+    """irresolute; every project is approved by one voter or by two neighbouring voters of a path/cycle, equal
+    costs, budget = a few purchases: tied projects share supporters, so the order in which they are bought
+    changes the loads.  Steered (rejection sampling) towards elections in which an exploration that identifies
+    states with the same SELECTION would lose outcomes."""
+    best = None
+    for attempt in range(12):
+        nv = rng.randrange(3, 6)
+        m = rng.randrange(4, 7)
+        cyc = rng.random() < 0.3
+        unit = pb.F(rng.choice([1, 1, 2, "1/2", "2/3"]))
+        ballots = [[] for _ in range(nv)]
+        pairs = [(v, v + 1) for v in range(nv - 1)] + ([(nv - 1, 0)] if cyc else [])
+        rng.shuffle(pairs)
+        singles = list(range(nv))
+        rng.shuffle(singles)
+        npair = rng.randrange(1, min(len(pairs), m - 1) + 1)
+        for j in range(m):
+            if j < npair:
+                for v in pairs[j]:
+                    ballots[v].append(j)
+            elif rng.random() < 0.85:
+                ballots[singles[(j - npair) % nv]].append(j)
+        ren = list(range(m))
+        rng.shuffle(ren)                    # random names for the roles
+        ballots = [sorted(ren[j] for j in b) for b in ballots]
+        costs = [pb.qs(unit)] * m
+        if rng.random() < 0.2:
+            j = rng.randrange(m)
+            costs[j] = pb.qs(unit * 2)
+        b = unit * rng.choice([2, 3, 3, 3, 4])
+        key = list(range(m))
+        rng.shuffle(key)
+        order = list(range(m))
+        rng.shuffle(order)
+        rng.shuffle(ballots)
+        c = {"costs": costs, "budget": pb.qs(b), "ballots": ballots, "multi": rng.random() < 0.5, "loads": None,
+             "init": [], "tb": rng.choice(TBS), "key": key, "resolute": False, "order": order}
+        _, tr = money(c, [[sorted(x), 1] for x in c["ballots"]], ["0/1"] * len(ballots))
+        if tr["memo_loses"]:
+            return c
+        if best is None or tr["tie"]:
+            best = c
     return best
 
 
@@ -216,7 +315,14 @@ def impl(case):
     from pabutools.rules.phragmen import sequential_phragmen
 
     inst, projs = pb.make_instance(case["costs"], case["budget"], case["order"])
-    prof = pb.make_approval_profile(inst, projs, case["ballots"], multi=case["multi"])
+    if case.get("mults"):
+        from pabutools.election import ApprovalMultiProfile, FrozenApprovalBallot
+
+        prof = ApprovalMultiProfile(instance=inst)
+        for b, k in zip(case["ballots"], case["mults"]):
+            prof[FrozenApprovalBallot([projs[j] for j in b])] += int(k)
+    else:
+        prof = pb.make_approval_profile(inst, projs, case["ballots"], multi=case["multi"])
     classes = [[sorted(pb.ranks(b)), int(prof.multiplicity(b))] for b in prof]
     loads = None
     if case["loads"] is not None:
@@ -269,35 +375,50 @@ def _key(case, costs, nsupp):
 
 
 def money(case, classes, loads):
-    """returns (set of frozensets, trace dict); voters are expanded to one per copy"""
+    """returns (set of frozensets, trace dict).  Voters are expanded to one per copy when there are at
+    most 64 copies; above that a class of multiplicity k enters every sum with weight k (same process)."""
     costs = [pb.F(c) for c in case["costs"]]
     B = pb.F(case["budget"])
-    voters, bal0 = [], []
+    voters, bal0, wt = [], [], []
+    expand = sum(k for _, k in classes) <= 64
     for (s, k), l in zip(classes, loads):
-        for _ in range(k):
+        for _ in range(k if expand else 1):
             voters.append(set(s))
             bal0.append(-pb.F(l))
+            wt.append(1 if expand else k)
     m = len(costs)
-    nsupp = [sum(1 for v in voters if p in v) for p in range(m)]
+    nsupp = [sum(w for v, w in zip(voters, wt) if p in v) for p in range(m)]
     key = _key(case, costs, nsupp)
     init = list(case["init"])
     rem0 = [p for p in range(m) if p not in init and costs[p] <= B]
     tr = {"rounds": 0, "tie": 0, "stop": 0, "stop_mixed": 0, "stop_first_fits": 0, "tail": 0, "backwards": 0,
-          "dear": int(any(costs[p] > B for p in range(m))), "bought": 0, "tail_stop": 0, "debt": 0}
+          "dear": int(any(costs[p] > B for p in range(m))), "bought": 0, "tail_stop": 0, "debt": 0,
+          "near_tie": 0, "near_tie_worse_preferred": 0, "memo_loses": 0}
     outs = set()
+    outs_memo = set()       # what an exploration that memoises on the SELECTION (not the loads) would return
+    seen = set()
 
-    def go(now, bal, rem, alloc, first_branch):
+    def go(now, bal, rem, alloc, first_branch, memo_alive):
         if not rem:
             outs.add(frozenset(alloc))
+            if memo_alive:
+                outs_memo.add(frozenset(alloc))
             return
         spent = sum((costs[p] for p in alloc), Fraction(0))
         sup = [p for p in rem if nsupp[p] > 0]
         if sup:
             def bt(p):
-                hold = sum((bal[i] for i, v in enumerate(voters) if p in v), Fraction(0))
+                hold = sum((w * bal[i] for i, (v, w) in enumerate(zip(voters, wt)) if p in v), Fraction(0))
                 return now + (costs[p] - hold) / nsupp[p]
-            t = min(bt(p) for p in sup)
-            due = [p for p in sup if bt(p) == t]
+            times = {p: bt(p) for p in sup}
+            t = min(times.values())
+            due = [p for p in sup if times[p] == t]
+            if first_branch:
+                near = [p for p in sup if times[p] != t and abs(times[p] - t) <= abs(t) / 10 ** 9]
+                if near:
+                    tr["near_tie"] += 1
+                    tr["near_tie_worse_preferred"] += any(
+                        sorted(sorted([p, d]), key=key)[0] == p for p in near for d in due)
         else:
             t = None
             due = list(rem)
@@ -319,6 +440,8 @@ def money(case, classes, loads):
                 tr["stop_first_fits"] += order[0] not in over
                 tr["tail_stop"] += t is None
             outs.add(frozenset(alloc))
+            if memo_alive:
+                outs_memo.add(frozenset(alloc))
             return
         for k, p in enumerate(order if not case["resolute"] else order[:1]):
             if t is None:
@@ -328,9 +451,17 @@ def money(case, classes, loads):
                 nn = t
             if first_branch and k == 0:
                 tr["bought"] += 1
-            go(nn, nb, [x for x in rem if x != p], alloc + [p], first_branch and k == 0)
+            alive = memo_alive
+            if alive:
+                st = frozenset(alloc) | {p}
+                if st in seen:
+                    alive = False
+                else:
+                    seen.add(st)
+            go(nn, nb, [x for x in rem if x != p], alloc + [p], first_branch and k == 0, alive)
 
-    go(Fraction(0), bal0, rem0, init, True)
+    go(Fraction(0), bal0, rem0, init, True, True)
+    tr["memo_loses"] = int(outs_memo != outs)
     return outs, tr
 
 
@@ -360,6 +491,8 @@ def stats(cases, obs):
          "round_with_tie": 0, "stopped_on_overshoot": 0, "stop_with_mixed_tie": 0,
          "stop_although_tb_first_fits": 0, "unsupported_tail_reached": 0, "tail_stopped": 0,
          "clock_went_backwards": 0, "some_voter_in_debt": 0, "nothing_bought": 0,
+         "class_with_multiplicity_ge_10000": 0, "near_tie_below_1e-9_relative": 0,
+         "near_tie_and_tb_prefers_the_later_project": 0, "irresolute_order_changes_loads_and_outcomes": 0,
          "tb_hist": {}, "nproj_hist": {}, "nvoter_copies_hist": {}, "rounds_hist": {}}
     for c, o in zip(cases, obs):
         if not isinstance(o, dict) or "out" not in o:
@@ -392,8 +525,13 @@ def stats(cases, obs):
         d["clock_went_backwards"] += tr["backwards"] > 0
         d["some_voter_in_debt"] += tr["debt"] > 0
         d["nothing_bought"] += tr["bought"] == 0
+        d["class_with_multiplicity_ge_10000"] += any(k >= 10000 for _, k in cl)
+        d["near_tie_below_1e-9_relative"] += tr["near_tie"] > 0
+        d["near_tie_and_tb_prefers_the_later_project"] += tr["near_tie_worse_preferred"] > 0
+        d["irresolute_order_changes_loads_and_outcomes"] += (not c["resolute"]) and tr["memo_loses"] > 0
+        ncop = sum(k for _, k in cl)
         for k, v in (("tb_hist", c["tb"]), ("nproj_hist", len(cs)),
-                     ("nvoter_copies_hist", sum(k for _, k in cl)), ("rounds_hist", tr["rounds"])):
+                     ("nvoter_copies_hist", ncop if ncop <= 64 else ">=10000"), ("rounds_hist", tr["rounds"])):
             d[k][str(v)] = d[k].get(str(v), 0) + 1
     return d
 
@@ -414,6 +552,8 @@ def shrink(case):
     for v in range(nv):
         c = dict(case)
         c["ballots"] = case["ballots"][:v] + case["ballots"][v + 1:]
+        if case.get("mults"):
+            c["mults"] = case["mults"][:v] + case["mults"][v + 1:]
         if case["loads"] is not None:
             c["loads"] = case["loads"][:v] + case["loads"][v + 1:]
         yield c
